@@ -8,6 +8,11 @@ import json, os, re, sys, time, traceback
 import vf
 
 
+# generated files each property's theorems depend on
+PROP_GENS = {'C02': ('GenParams.v', 'GenGuards.v'), 'C04': ('GenGuards.v',), 'C05': ('GenParams.v', 'GenGuards.v'), 'C06': ('GenGuards.v',),
+             'C08': ('GenGuards.v',), 'C13': ('GenCli.v', 'GenCliIdx.v'), 'C18': ('GenLayout.v', 'GenCliIdx.v'), 'C19': ('GenPyx.v', 'GenCli.v')}
+
+
 class Ctx:
     def __init__(self, pid, tier):
         self.pid = pid
@@ -45,9 +50,13 @@ class Ctx:
 
     # ------------------------------------------------------------------ step 1
     def prove(self):
-        ok, msg = vf.translate()
-        if not ok:
-            self.tie_failures.append('translator: ' + msg)
+        errs, msg = vf.translate()
+        for name, e in errs.items():
+            # only the generated files this property's theorems (or its executable model constants) depend on
+            if name == '*' or name in PROP_GENS.get(self.pid, ()):
+                self.tie_failures.append('translator %s: %s' % (name, e))
+            else:
+                self.notes.append('translator %s failed (not a dependency of this property): %s' % (name, e[:200]))
         bad = vf.forbidden_vernac()
         if bad:
             self.tie_failures.append('forbidden vernacular in the development: ' + '; '.join(bad[:5]))
